@@ -1,0 +1,20 @@
+//go:build verif
+
+package metaclient
+
+// Thin wrappers for the C19 verification harness (no behaviour): the update loops of the client-side catalogue copy and
+// the password hash used by CREATE USER / SET PASSWORD.
+
+// VerifC19HashPassword returns the stored form of a password.
+func (c *Client) VerifC19HashPassword(password string) (string, error) {
+	return c.auth.genHashPwdVal(password)
+}
+
+// VerifC19PollV2 runs the incremental update loop (returns when the client is closed).
+func (c *Client) VerifC19PollV2(role Role) { c.pollForUpdatesV2(role) }
+
+// VerifC19PollV1 runs the full-snapshot update loop (returns when the client is closed).
+func (c *Client) VerifC19PollV1(role Role) { c.pollForUpdates(role) }
+
+// VerifC19Index returns the index of the catalogue copy.
+func (c *Client) VerifC19Index() uint64 { return c.index() }
